@@ -142,6 +142,8 @@ pub struct Grammar {
     pub loop_counts: Vec<i64>,
     /// immediately applied anonymous function of one parameter `p<depth>`: `functie(p0) { body }(arg)`
     pub iife: bool,
+    /// `zolang ja { body; stop }`: a loop on the literal condition, left by stop
+    pub ja_loops: bool,
     /// named function definitions as statements: `functie NAME(PARAMS) { body }`
     pub named_funcs: Vec<(String, Vec<String>)>,
     pub block_stmt: bool,
@@ -315,6 +317,9 @@ impl Enumerator {
         }
         if !g.loop_counts.is_empty() && ctx.loop_depth < 2 {
             c += g.loop_counts.len() as u64 * self.count_blocks(n - 1, Self::loop_ctx(ctx));
+        }
+        if g.ja_loops && ctx.loop_depth < 2 {
+            c += self.count_blocks(n - 1, Self::loop_ctx(ctx));
         }
         self.scount.borrow_mut().insert((n, ctx), c);
         c
@@ -596,6 +601,17 @@ impl Enumerator {
                 if !self.each_block(n - 1, inner, &mut |b| f(&[es(func(name, &ps, b.to_vec()))])) {
                     return false;
                 }
+            }
+        }
+        if g.ja_loops && ctx.loop_depth < 2 {
+            let inner = Self::loop_ctx(ctx);
+            let ok = self.each_block(n - 1, inner, &mut |b| {
+                let mut body: Vec<Stmt> = b.to_vec();
+                body.push(Stmt::Break);
+                f(&[es(whil(boolean(true), body))])
+            });
+            if !ok {
+                return false;
             }
         }
         if !g.loop_counts.is_empty() && ctx.loop_depth < 2 {
